@@ -6,7 +6,8 @@
      snd (oracle) : the observed results satisfy the specification (PagedSpec.v), computed
                     from the logs of stores / set_permissions, never from the model.
    The oracle is silent where the property is: widths that are not a positive multiple of 8,
-   address ranges reaching past 2^64, pages named by an empty set_permissions range. *)
+   address ranges reaching beyond 2^64 (ranges ending exactly at 2^64 are judged), pages named by
+   an empty set_permissions range. *)
 From Coq Require Import ZArith List Bool NArith.
 From Falcon Require Import Base.Res IL.Const IL.Expr Mem.PagedTypes Mem.Paged Mem.PagedSpec.
 Import ListNotations.
@@ -157,15 +158,15 @@ Definition ostep (backs : list backing) (gen : N) (st : list shandle) (o : op) (
       match nth_error st h with
       | None => (false, None)
       | Some s =>
-          if valid_width vw then
-            if a + vw / 8 <? USIZE then
-              let s' := mksh (s_e s) (s_back s) (mkss a (mkc vw vv) :: s_log s) (s_plog s) gen in
-              match set_nth st h s' with
-              | Some st' => (is_ok_unit ob, Some (N.succ gen, st'))
-              | None => (false, None)
-              end
-            else (true, None)
-          else match ob with
+          if valid_width vw && (a + vw / 8 <=? USIZE) then
+            (* any byte-multiple width at any address whose range lies in the address space,
+               ranges ending exactly at 2^64 included: the store must succeed *)
+            let s' := mksh (s_e s) (s_back s) (mkss a (mkc vw vv) :: s_log s) (s_plog s) gen in
+            match set_nth st h s' with
+            | Some st' => (is_ok_unit ob, Some (N.succ gen, st'))
+            | None => (false, None)
+            end
+          else match ob with     (* bad width, or a range that wraps 2^64: silent *)
                | BUnit (Err _) => (true, Some (gen, st))   (* a rejected store stores nothing *)
                | _ => (true, None)
                end
